@@ -3470,3 +3470,33 @@ namespace ypf { void walk() { auto& l = policy::release::classes; auto i = l.beg
             run.violation(rule, "static_list::iterator::operator++(int)", "%s: %s - a `*it++` walk skips the first registration and yields the end position as if it were an item" % (short(f), why), (f["file"], f["line"]))
     if n < 2:
         run.broken.append("postfix increments of the catalog iterators not found in the unit (%d)" % n)
+
+
+def hash_sizing_rules(run, rule, ast):
+    """the hash table is sized after the number of KEYS the search places - every id of every class - not after the number of
+    classes: with k ids per class a table sized for the classes is k times too small and the search can never succeed."""
+    for f in [f for f in _fn(ast, r"fast_perfect_hash<.*>::hash_initialize<") if len(f["params"]) == 3]:
+        p0, p1 = f["params"][0]["did"], f["params"][1]["did"]
+        # the local the bucket count is derived from: the one whose value (scaled) is shifted down to count bits, or used directly
+        cand = []
+        for n in astq.walk(f["body"]):
+            if n.get("k") == "DeclStmt":
+                for d in n["decls"]:
+                    ini = d.get("init")
+                    if ini is not None and any(x.get("k") == "CallExpr" and (x.get("callee") or "").startswith("std::distance<") and _refs(x, p0) and _refs(x, p1) for x in astq.walk(ini)):
+                        cand.append(("classes", d, n))
+                    elif "size_t" in (d.get("type") or "") or "long" in (d.get("type") or ""):
+                        # an accumulator over the ids
+                        acc = [x for x in astq.walk(f["body"]) if x.get("k") in ("CompoundAssignOperator", "UnaryOperator") and x.get("op") in ("+=", "++") and _refs(x["c"][0], d["did"]) and astq.strip(x["c"][0]).get("k") == "DeclRefExpr"]
+                        ids = [x for x in acc if x.get("op") == "+=" and any((y.get("callee") or "").endswith(("::type_id_begin", "::type_id_end")) for y in astq.walk(x["c"][1]) if y.get("k") == "CXXMemberCallExpr")]
+                        if ids:
+                            cand.append(("ids", d, n))
+        kinds = {k for k, _, _ in cand}
+        if not kinds:
+            run.broken.append("%s: the count the table size is derived from was not found" % short(f))
+            continue
+        ok = "ids" in kinds
+        run.instance(rule, "%s: the table is sized after the number of ids to place" % short(f), (f["file"], cand[0][2]["l"]), ok=ok)
+        if not ok:
+            run.violation(rule, "fast_perfect_hash::hash_initialize|sized-by-classes", "the bucket count is derived from `%s = std::distance(first, last)`, the number of CLASSES, while the scan places every id of every class: "
+                          "with several ids per class the table is too small and the search ends in hash_search_error" % cand[0][1]["name"], (f["file"], cand[0][2]["l"]))
